@@ -487,3 +487,52 @@ theorem serviceWriteLoop_hull (maxSize : Nat) (hm : 1 ≤ maxSize) : ∀ (fuel :
       exact ⟨[], by simp, trivial⟩
 
 end Logrange.WriteLoopM
+
+/-! ## the write loop under faults: acknowledged ⇒ the whole batch was handed to a chunk -/
+namespace Logrange.WriteLoopM
+open Logrange.JournalW
+
+theorem serviceWriteLoopF_spec (faultAt : Nat → Journal → Bool) (maxSize : Nat) (hm : 1 ≤ maxSize)
+    (hg : Generated.C01.writeErrGuardIsNLeZero = true) :
+    ∀ (fuel w : Nat) (j : Journal) (recs : List Rec) (iw : IW) (o : WOut), recs.length < fuel → o.err = false →
+    ∃ k, k ≤ recs.length ∧
+      readAll (serviceWriteLoopF faultAt maxSize fuel w j recs iw o).1 = readAll j ++ (recs.take k).map (·.data) ∧
+      ((serviceWriteLoopF faultAt maxSize fuel w j recs iw o).2.err = false → k = recs.length) := by
+  intro fuel
+  induction fuel with
+  | zero => intro w j recs iw o h; simp at h
+  | succ fuel ih =>
+    intro w j recs iw o hf ho
+    simp only [serviceWriteLoopF]
+    by_cases hfa : faultAt w j = true
+    · -- the iteration fails with nothing written: reported, whatever was written before
+      refine ⟨0, by omega, ?_, ?_⟩
+      · simp [hfa]
+      · simp [hfa, errGuard, hg]
+    · simp only [hfa, Bool.false_eq_true, ↓reduceIte]
+      obtain ⟨k, hs⟩ := journalWrite_spec maxSize IW.see hm j recs iw
+      generalize journalWrite maxSize IW.see j recs iw = r at hs
+      simp only [hs.err, Bool.false_eq_true, ↓reduceIte]
+      have hnote : (noteWrite o r).err = false := by
+        simp only [noteWrite]; split <;> simp [ho]
+      cases hrest : r.rest with
+      | nil =>
+        simp only []
+        have hkl : k = recs.length := by
+          have := hs.rest; rw [hrest] at this
+          have h2 := congrArg List.length this
+          simp at h2; have := hs.le; omega
+        exact ⟨k, hs.le, hs.read, fun _ => hkl⟩
+      | cons x xs =>
+        simp only []
+        have hk1 : 1 ≤ k := hs.pos1 (by intro hn; rw [hs.rest, hn] at hrest; simp at hrest)
+        have hlen : r.rest.length < fuel := by
+          have := hs.le; rw [hs.rest]; simp; omega
+        obtain ⟨k2, hk2, hr2, he2⟩ := ih (w + r.n) r.j r.rest (r.st.see x) (noteWrite o r) hlen hnote
+        rw [hrest] at hk2 hr2 he2
+        have hrl : (x :: xs).length = recs.length - k := by rw [← hrest, hs.rest]; simp
+        refine ⟨k + k2, by have := hs.le; omega, ?_, ?_⟩
+        · rw [hr2, hs.read, ← hrest, hs.rest, List.append_assoc, ← List.map_append, List.take_add]
+        · intro he; have := he2 he; have := hs.le; omega
+
+end Logrange.WriteLoopM
